@@ -25,7 +25,7 @@ from ufl.sobolevspace import H1, L2, HDiv
 
 from ufv import elements as E
 from ufv import num as N
-from ufv.core import proved, undecided, violated
+from ufv.core import crash_text, deliberate, proved, undecided, violated
 from ufv.den import World, den
 from ufv.num import Unsupported
 from ufv.opq import mesh
@@ -164,6 +164,8 @@ def build(run):
                     try:
                         r = rules(o)
                     except (ValueError, RuntimeError) as ex:
+                        if not deliberate(ex):
+                            return violated(f"crash instead of a result or a refusal: {crash_text(ex)}", reproduced=True, backend="exec")
                         return proved("rejected", sample=f"{tag}: {ex}"[:200])
                     mk = two_world(msh)
                     # what the terminal means where it stands: seen from side `cur`; unrestricted (cur None) only continuous/side-free quantities mean something
@@ -272,6 +274,8 @@ def build(run):
                     try:
                         r = apply_restrictions(e, default_restrictions=None if dflt is None else {msh: dflt})
                     except (ValueError, RuntimeError) as ex:
+                        if not deliberate(ex):
+                            return violated(f"crash instead of a result or a refusal: {crash_text(ex)}", reproduced=True, backend="exec")
                         return proved("rejected", sample=f"{tag}: {ex}"[:200])
                     if not meaningful:
                         if dflt is None:
